@@ -9,7 +9,8 @@ from xh.h_c09 import L_MINI
 
 PROP = 'C05'
 OPS = ['add_asset', 'remove_asset', 'add_association', 'remove_association', 'remove_asset_from_association',
-       'add_attacker', 'remove_attacker', 'add_entry_point', 'remove_entry_point', 're-add removed id+name']
+       'add_attacker', 'remove_attacker', 'add_entry_point', 'remove_entry_point', 're-add removed id+name',
+       're-add the removed asset object itself']
 AIDS = [None, 0, 5, -1, 1]
 STEPS = ['a', 'c']
 
@@ -24,6 +25,7 @@ class Abs:
         self.ever_ids = []
         self.ever_names = []
         self.removed = []     # [(id, name)] of removed assets
+        self.removed_objs = []
 
     def live(self, obj):
         return any(a['obj'] is obj for a in self.assets)
@@ -161,6 +163,24 @@ def apply_op(m, lcf, ab, slots, o, x, y, z, w, step_no):
             ab.assets.append({'obj': obj, 'id': int(obj.id), 'name': str(obj.name)})
             ab.ever_ids.append(int(obj.id)); ab.ever_names.append(str(obj.name))
             slots.append(obj)
+    elif o == 10:
+        # the very object that was removed before is added again, without an explicit id
+        if not ab.removed_objs:
+            return ''
+        obj = ab.removed_objs[-1]
+        if ab.live(obj):
+            return ''
+        live_names = [a['name'] for a in ab.assets]
+        try:
+            m.add_asset(obj)
+        except Exception as e:
+            raised = e
+        valid = True
+        if raised is None:
+            if int(obj.id) in [a['id'] for a in ab.assets]:
+                return 're-added asset object received the id %r which a live asset holds' % int(obj.id)
+            ab.assets.append({'obj': obj, 'id': int(obj.id), 'name': str(obj.name)})
+            ab.ever_ids.append(int(obj.id)); ab.ever_names.append(str(obj.name))
     elif o == 1:
         obj = slots[x % len(slots)]
         valid = ab.live(obj)
@@ -171,6 +191,7 @@ def apply_op(m, lcf, ab, slots, o, x, y, z, w, step_no):
         if raised is None and valid:
             rec = ab.rec(obj)
             ab.removed.append((rec['id'], rec['name']))
+            ab.removed_objs.append(obj)
             ab.assets = [a for a in ab.assets if a['obj'] is not obj]
             ab.drop_from_links(obj)
             for t in ab.attackers:
@@ -388,6 +409,11 @@ def queries(tier):
                         timeout=600, witnesses=[(c5[0], {'att': True, 'x0': 2, 'y0': 0, 'o1': 1, 'x1': 0, 'y1': 0})],
                         bound='association p=[a0,a1], q=[a0,a2] (asset 0 in both fields): every pair of removals (remove_asset, remove_asset_from_association, '
                               'then also remove_association) with every argument'))
+        ps6 = [B('l01'), B('att'), I('x0', 0, 2), I('x1', 0, 4), I('y1', 0, 1), I('z1', 0, 1)]
+        c6 = {'k': 3, '_fixed': {'x2': True, 'l12': False, 'l00': False, 'pk': False, 'o0': 1, 'o1': 0, 'o2': 10}}
+        qs.append(Query(name='reobj', body=body_hist, params=ps6, cubes=[c6], timeout=600,
+                        witnesses=[(c6, {'l01': True, 'att': True, 'x0': 0, 'x1': 1, 'y1': 0, 'z1': 1})],
+                        bound='remove_asset of every slot, add_asset of a new asset with every id pick, then the removed asset OBJECT itself is added again'))
     return qs + [Query(name='hist', body=body_hist, params=ps, cubes=[{'k': k}], split=['o0', 'x0'] if k == 1 else ['o0', 'o1'],
                        pre=['not ps or (l00 and x2 and not pk and not l12)', 'not nm or (not l12 and not l00 and not pk)', 'not att2 or (not l12 and not l00 and not pk and not nm)', 'not un or (not nm and not att2 and not l00 and not pk and not l12)'] if k == 1 else
                        ['x2 and att and not l12 and not pk', 'not ps or l00', 'not nm or not l00', 'not att2 or (not l00 and not nm)', 'not un or (not nm and not att2 and not l00)'],
